@@ -17,6 +17,19 @@ CHECKS = {
     ),
 }
 
+CHECKS["C18"] = (
+    "term-stub execution of the real expand() on a token IPv4Network + z3 bit-vector queries (all networks x all probes per prefix length); CrossHair selector families for native CIDR values and IPv6",
+    "IPv4: for each of the 33 prefix lengths one z3 query over ALL 2^32 aligned network addresses and ALL 2^32 probe addresses decides 'exactly one produced pattern matches iff the address is inside' (exact, complete, non-redundant). Native-expression values and an IPv6 probe family (first/last/interior addresses incl. zero-run layouts) are explored by CrossHair over selector spaces. The IPv6 universal claim is NOT decided (bounded family only).",
+    TB,
+    "5.C18",
+)
+CHECKS["C04"] = (
+    "term-stub execution of the real base64/base64offset modifier on a token Base64 model + z3 bit-vector queries over all payload/prefix/suffix byte values per length profile; CrossHair class-selector families for the UTF-16 modifiers and chains",
+    "base64offset: for every payload length profile (1..3/4 characters of UTF-8 width 1..4, ASCII up to 12/24) x prefix 0..5 x suffix 0..5 z3 decides over all byte values that the value for alignment k mod 3 occurs in Base64(prefix+payload+suffix). base64/wide/utf16be/utf16 and chains: bytes of the value == codec bytes, exhaustively over 25 character classes (<= 2/3 characters) and payload lengths 0..150.",
+    TB,
+    "5.C04",
+)
+
 NOT_APPLICABLE = {}
 
 ALL = [f"C{n:02d}" for n in range(1, 21)]
